@@ -41,7 +41,7 @@ type DDLCase struct {
 }
 
 var plainNames = []string{"a", "b", "c", "id", "name", "email", "col_1", "_x", "k2", "Value", "ZZ"}
-var quotedNames = []string{"a b", "select", "primary", "table", "order by", "é", "日本語", "with-dash", "1st", "it's", "x.y", "UPPER lower", "key", "not"}
+var quotedNames = []string{"a b", "select", "primary", "table", "order by", "é", "日本語", "with-dash", "1st", "it's", "x.y", "UPPER lower", "key", "not", "x\"y", "say \"hi\"", "\"lead"}
 
 func (c DDLCol) render(kw func(string) string, sep string) string {
 	name := c.Name
@@ -91,7 +91,11 @@ func (c DDLCase) columnsText() string {
 	if c.TrailPK >= 0 && c.TrailPK < len(c.Cols) {
 		col := c.Cols[c.TrailPK]
 		name := col.Name
-		switch c.TrailQ {
+		tq := c.TrailQ
+		if strings.Contains(name, "\"") {
+			tq = "'" // only the single-quoted form can hold a double quote
+		}
+		switch tq {
 		case "'":
 			name = "'" + strings.ReplaceAll(name, "'", "''") + "'"
 		case "\"":
@@ -119,6 +123,9 @@ func genDDLCase(t *rapid.T) DDLCase {
 		if rapid.IntRange(0, 2).Draw(t, "quoted") == 0 {
 			col.Name = rapid.SampledFrom(quotedNames).Draw(t, "qname")
 			col.Quote = rapid.SampledFrom([]string{"'", "\""}).Draw(t, "q")
+			if strings.Contains(col.Name, "\"") {
+				col.Quote = "'" // a name holding a double quote can only be written in the single-quoted form
+			}
 		} else {
 			col.Name = rapid.SampledFrom(plainNames).Draw(t, "name")
 			col.Quote = rapid.SampledFrom([]string{"", "", "", "\"", "'"}).Draw(t, "q")
